@@ -136,6 +136,70 @@ Theorem C41_scope_table :
 Proof. vm_compute. reflexivity. Qed.
 Print Assumptions C41_scope_table.
 
+(* ---- immediate vs inherited decorators ---- *)
+
+(* the running tables (finite, by computation over the dump of Options.immediate_decorator_directives
+   and Options.directive_scopes): the immediate set is exactly the documented list of signature /
+   type decorators, contains no documented behaviour directive (boundscheck, wraparound, cdivision,
+   nonecheck, overflowcheck, embedsignature, binding, always_allow_keywords, profile, infer_types,
+   optimize.*, warn.* ...), none of those is dropped on inheritance either, and every immediate
+   directive is one whose use is restricted to particular scopes *)
+Theorem C41_immediate_table :
+  immediate_table_ok g_immediate g_scopes g_non_inherited = true.
+Proof. vm_compute. reflexivity. Qed.
+Print Assumptions C41_immediate_table.
+
+(* directive_scopes of the running compiler = the documented placement table, entry by entry *)
+Theorem C41_scopes_table_documented : scopes_table_ok g_scopes = true.
+Proof. vm_compute. reflexivity. Qed.
+Print Assumptions C41_scopes_table_documented.
+
+(* any tables, any directive outside the immediate set: the value for the code at any path is the
+   innermost enclosing explicit legal setting -- the specification with an EMPTY immediate set,
+   i.e. class and function decorators are inherited by everything they enclose *)
+Theorem C41_inherited_directive :
+  forall scopes immediate non_inherited d cur forest,
+  mem d immediate = false -> mem d non_inherited = false -> Forall scalar_tree forest ->
+  let '(l, st, _) := visit_list scopes immediate non_inherited cur forest in
+  st = cur /\
+  forall p a, lookup_path l p = Some a ->
+              Some (get d (body_dict a)) = spec_at scopes [] d (get d cur) forest p.
+Proof. exact inherited_directive. Qed.
+Print Assumptions C41_inherited_directive.
+
+(* the running compiler, every documented behaviour directive, every forest and path *)
+Theorem C41_behaviour_directive_inherited :
+  forall d cur forest, In d doc_behaviour -> Forall scalar_tree forest ->
+  let '(l, st, _) := visit_list g_scopes g_immediate g_non_inherited cur forest in
+  st = cur /\
+  forall p a, lookup_path l p = Some a ->
+              Some (get d (body_dict a)) = spec_at g_scopes [] d (get d cur) forest p.
+Proof.
+  intros d cur forest Hd Hs.
+  destruct (immediate_table_behaviour g_scopes g_immediate g_non_inherited d C41_immediate_table Hd) as [Hi Hn].
+  exact (inherited_directive g_scopes g_immediate g_non_inherited d cur forest Hi Hn Hs).
+Qed.
+Print Assumptions C41_behaviour_directive_inherited.
+
+(* a decorated def / class / cdef class: the object itself is under its own first legal decorator
+   setting of every directive (immediate or not); the enclosed code is too unless the directive is
+   immediate, in which case it keeps the surrounding value *)
+Theorem C41_decorated_object :
+  forall scopes immediate non_inherited d cur k sets ch,
+  k <> KProbe -> k <> KWith -> scalar_tree (Node k sets ch) -> mem d non_inherited = false ->
+  let '(a, st, _) := visit scopes immediate non_inherited cur (Node k sets ch) in
+  st = cur /\
+  get d (node_dict a) = or_else (first_setting scopes d k sets) (get d cur) /\
+  get d (body_dict a) = or_else (if mem d immediate then None else first_setting scopes d k sets) (get d cur).
+Proof. exact decorated_object. Qed.
+Print Assumptions C41_decorated_object.
+
+(* on the running tables an immediate directive is a documented one with a restricted scope *)
+Theorem C41_immediate_members :
+  forall d, mem d g_immediate = true -> mem d doc_immediate = true /\ restricted_scope g_scopes d = true.
+Proof. intros d. exact (immediate_table_members g_scopes g_immediate g_non_inherited d C41_immediate_table). Qed.
+Print Assumptions C41_immediate_members.
+
 Definition ex_cdiv : str := [99; 100; 105; 118; 105; 115; 105; 111; 110].   (* "cdivision" *)
 Definition ex_body : list tree :=
   [Node KFunc [(ex_cdiv, VBool false); (ex_cdiv, VBool true)]
@@ -144,7 +208,16 @@ Definition ex_body : list tree :=
 
 (* hypotheses satisfiable on a non-trivial program: option cdivision=True; a function decorated
    cdivision(False) [first decorator wins] containing `with cdivision(True)`; a sibling function *)
+Definition ex_binding : str := [98; 105; 110; 100; 105; 110; 103].   (* "binding" *)
+Definition ex_final : str := [102; 105; 110; 97; 108].   (* "final" *)
 Example C41_nonvacuous :
+  In ex_binding doc_behaviour /\ mem ex_final g_immediate = true /\
+  (let '(l, _, rej) := visit_list g_scopes g_immediate g_non_inherited g_defaults
+       [Node KCClass [(ex_binding, VBool false); (ex_final, VBool true)] [Node KFunc [] [Node KProbe [] []]]] in
+   rej = [] /\
+   option_map (fun a => get ex_binding (body_dict a)) (lookup_path l [0; 0]%nat) = Some (Some (VBool false)) /\
+   option_map (fun a => get ex_final (node_dict a)) (lookup_path l [0]%nat) = Some (Some (VBool true)) /\
+   option_map (fun a => get ex_final (body_dict a)) (lookup_path l [0; 0]%nat) = Some None) /\
   mem ex_cdiv g_non_inherited = false /\ Forall scalar_tree ex_body /\
   let '(_, l, _, rej) := g_visit_module [(ex_cdiv, VBool true)] [] ex_body in
   rej = [] /\
@@ -152,6 +225,7 @@ Example C41_nonvacuous :
   option_map (fun a => get ex_cdiv (body_dict a)) (lookup_path l [0; 1]%nat) = Some (Some (VBool false)) /\
   option_map (fun a => get ex_cdiv (body_dict a)) (lookup_path l [1; 0]%nat) = Some (Some (VBool true)).
 Proof.
+  split; [vm_compute; tauto|]. split; [vm_compute; reflexivity|]. split; [vm_compute; auto|].
   split; [vm_compute; reflexivity|]. split.
   - repeat constructor.
   - vm_compute. auto.
